@@ -272,7 +272,9 @@ pub fn specs(tier: &str) -> Vec<ExpSpec> {
                 // with a single free cluster every allocation on the full volume scans the whole FAT (one device call
                 // per entry): one level less
                 let d = if sn == "last-only" { if th { 4 } else { 3 } } else if th { 5 } else { 4 };
-                v.push(ExpSpec::new(sp.cfg, alphabet(cs as u32), d));
+                // the file handle exists from the start: one more level for what happens to its clusters
+                let prefix = vec![Op::CreateFile { base: DirRef::Root, path: "f".into(), keep: Some(0) }];
+                v.push(ExpSpec::new(sp.cfg, alphabet(cs as u32), d).with_prefix(prefix));
             }
         }
     }
